@@ -8,6 +8,8 @@ A_STRUCT = '{"lb","rb","ls","rs","cm","cl","qt","x","d1","mi","sp","n","u","l"}'
 A_LEX = ('{"qt","bs","u","hx","x","ctl","tb","d0","d1","mi","pl","dt","le","t","r","f","a","l","s","n",'
          '"sp","ls","rs","cm","hi","nul","sl","b","ue"}')
 OBJ_PREFIX = '<<"lb","qt","x","qt","cl">>'
+A_INS = '{"lb","rb","ls","rs","cm","cl","qt","d1"}'
+A_INS_T = '{"lb","rb","ls","rs","cm","cl","qt","d1","sp","n","u","l"}'
 
 
 def configs(ctx):
@@ -18,19 +20,23 @@ def configs(ctx):
             ("lex", A_LEX, 4, 3, "<<>>", "", 3),
             ("skipped", A_STRUCT, 5, 2, OBJ_PREFIX, "obj", 3),
             ("inarray", A_LEX, 4, 3, '<<"ls">>', "arr", 2),
+            # a valid document with ONE offending byte inserted anywhere (GenLex Recover): config name ends in "+ins"
+            ("struct+ins", A_INS, 8, 0, "<<>>", "", 2),
         ]
     return [
         ("struct", A_STRUCT, 9, 2, "<<>>", "", 4),
         ("lex", A_LEX, 6, 4, "<<>>", "", 3),
         ("skipped", A_STRUCT, 7, 2, OBJ_PREFIX, "obj", 3),
         ("inarray", A_LEX, 5, 3, '<<"ls">>', "arr", 3),
+        ("struct+ins", A_INS_T, 8, 1, "<<>>", "", 3),
     ]
 
 
 def gen(ctx, cfg, maxdepth=3):
     name, alpha, maxlen, strcap, prefix, pkind, m = cfg
     r = vf.tlc(ctx, "MCGenLex", "mc/GenLex.cfg", name="genlex-" + name, dump="states",
-               defines={"MAXDEPTH": maxdepth, "ALPHABET": alpha, "MAXLEN": maxlen, "STRCAP": strcap, "PREFIX": prefix},
+               defines={"MAXDEPTH": maxdepth, "ALPHABET": alpha, "MAXLEN": maxlen, "STRCAP": strcap, "PREFIX": prefix,
+                        "RECOVER": "TRUE" if name.endswith("+ins") else "FALSE"},
                timeout=3000, workers=max(2, vf.NPROC // 2))
     if not r["ok"]:
         # the model itself violates one of its invariants: the spec is wrong, not the code
